@@ -595,6 +595,9 @@ func (m *memFS) Mknod(path string, mode uint32, dev int) error {
 	if err != nil {
 		return err
 	}
+	if !anode.dir {
+		return fmt.Errorf("parent is not a directory")
+	}
 	anode.mu.Lock()
 	defer anode.mu.Unlock()
 	if _, ok := anode.children[base]; ok {
@@ -672,6 +675,9 @@ func (m *memFS) Symlink(oldname, newname string) error {
 	if err != nil {
 		return err
 	}
+	if !anode.dir {
+		return fmt.Errorf("parent is not a directory")
+	}
 	anode.mu.Lock()
 	defer anode.mu.Unlock()
 	if _, ok := anode.children[base]; ok {
@@ -694,6 +700,9 @@ func (m *memFS) link(oldname, newname string, hdr *tar.Header) error {
 	anode, err := m.getNode(parent)
 	if err != nil {
 		return err
+	}
+	if !anode.dir {
+		return fmt.Errorf("parent is not a directory")
 	}
 	target, err := m.getNode(oldname)
 	if err != nil {
